@@ -321,7 +321,8 @@ class ProgGen:
             return {r.choice(["a", "b", "ключ", "extension_reqs", "runtime_reqs", "input_extensions", "parent", "op",
                               "t", "v", "nodes"]): j(d - 1) for _ in range(r.randint(0, 2))}
 
-        return {r.choice(["name", "meta.key", "k", " key ", "k\n", "k<&>", "extension_reqs", "op"]): j(2)
+        return {r.choice(["name", "meta.key", "k", " key ", "k\n", "k<&>", "extension_reqs", "op", "core.title",
+                          "core.meta.description", "compat.meta_json"]): j(2)
                 for _ in range(r.randint(1, 2))}
 
     def stmt_simple_op(self, rg: Region):
